@@ -7,9 +7,84 @@ def oracle(h, g, l):
     return irc_monitor.monitor(h, g, "C13")
 
 
+def unhex(x):
+    return "" if x in ("-", "") else bytes.fromhex(x).decode("utf-8", "replace")
+
+
+def parse_dump(line):
+    """VerifDump -> (sessions: id -> dict, channels: lc -> dict)"""
+    sess, chans = {}, {}
+    for part in line.split(" | "):
+        f = part.split(" ")
+        if f[0] == "S":
+            kvs = dict(x.split("=", 1) for x in f[2:] if "=" in x)
+            sess[int(f[1].split(".")[0]) if f[1].endswith(".0") else f[1]] = {"nick": irc_monitor.lower_nick(unhex(kvs.get("n", "-"))), "oper": kvs.get("op") == "1", "srv": kvs.get("srv") == "1",
+                                                                              "chans": set(unhex(c) for c in kvs.get("ch", "").split(",") if c)}
+        elif f[0] == "C":
+            kvs = dict(x.split("=", 1) for x in f[2:] if "=" in x)
+            mem = {}
+            for m in kvs.get("N", "").split(","):
+                if ":" in m:
+                    n, fl = m.split(":")
+                    mem[unhex(n)] = fl
+            chans[unhex(f[1])] = {"modes": kvs.get("m", ""), "key": kvs.get("k", ""), "bans": kvs.get("b", ""), "topic": kvs.get("t", ""), "mem": mem}
+    return sess, chans
+
+
+def state_oracle(ops, gl):
+    """judged on the implementation's own state dumps (before/after every entry): an entry of a client that is
+    neither channel operator of a channel nor IRC operator leaves that channel's modes, key, bans, operator flags
+    and (if +t or not a member) topic alone"""
+    prev = None
+    for j, (o, g) in enumerate(zip(ops, gl)):
+        if o == "R":
+            prev = None
+            continue
+        if o != "D":
+            continue
+        cur = parse_dump(g)
+        e = ops[j - 1] if j > 0 else ""
+        f = e.split()
+        if prev is not None and f and f[0] == "E" and f[1] == "2":
+            actor = int(f[3])
+            ps, pc = prev
+            cs, cc = cur
+            a = ps.get(actor)
+            if a and not a["srv"] and not a["oper"] and not (cs.get(actor) or {}).get("oper"):
+                for lc, before in pc.items():
+                    after = cc.get(lc)
+                    if after is None:
+                        continue
+                    isop = "o" in before["mem"].get(a["nick"], "")
+                    if isop:
+                        continue
+                    ismember = a["nick"] in before["mem"]
+                    why = None
+                    for fld, label in (("modes", "modes"), ("key", "key"), ("bans", "ban list")):
+                        if before[fld] != after[fld]:
+                            why = "%s of %s changed from %r to %r" % (label, lc, before[fld], after[fld])
+                    if before["topic"] != after["topic"] and ("t" in before["modes"] or not ismember):
+                        why = "topic of %s changed" % lc
+                    newnick = (cs.get(actor) or {}).get("nick", a["nick"])
+                    ops_b = {n for n, fl in before["mem"].items() if "o" in fl} - {a["nick"], newnick}
+                    ops_a = {n for n, fl in after["mem"].items() if "o" in fl and n in before["mem"]} - {a["nick"], newnick}
+                    gone = set(before["mem"]) - set(after["mem"])
+                    if ops_a - ops_b or (ops_b - ops_a - gone):
+                        why = "channel operators of %s changed from %s to %s" % (lc, sorted(ops_b), sorted(ops_a))
+                    if "o" in after["mem"].get(newnick, "") and ismember:
+                        why = "%s made itself channel operator of %s" % (newnick, lc)
+                    kicked = [n for n in gone if n not in (a["nick"],)]
+                    if kicked and irc_check.txt(e).split(" ")[0].upper() == "KICK":
+                        why = "%s removed from %s by a KICK" % (kicked, lc)
+                    if why:
+                        return (j - 1, "c13:state", "%s by session %d (%r), which is neither channel operator there nor IRC operator — input %r" % (why, actor, a["nick"], irc_check.txt(e)[:80]))
+        prev = cur
+    return None
+
+
 def check(run):
     n, L = (300, 120) if run.tier == "quick" else (8000, 300)
-    return irc_check.run_property(run, oracle, n, L,
+    return irc_check.run_property(run, oracle, n, L, state_oracle=state_oracle,
         rule="random histories; every output message of every entry is checked by an independent reference monitor that tracks membership, channel-operator status, nick ownership and operator status only from what the server announces; non-trivial = history > 5 ops; distinct by op list")
 
 
